@@ -59,6 +59,9 @@ LStrip(s) == IF s # <<>> /\ Head(s) \in WS THEN LStrip(Tail(s)) ELSE s
 RECURSIVE RStrip(_)
 RStrip(s) == IF s # <<>> /\ s[Len(s)] \in WS THEN RStrip(SubSeq(s, 1, Len(s) - 1)) ELSE s
 Strip(s) == RStrip(LStrip(s))                       \* str.strip()
+RECURSIVE StripSp(_)                                \* blanks (SP only) at both ends
+StripSp(s) == IF s # <<>> /\ Head(s) = " " THEN StripSp(Tail(s))
+              ELSE IF s # <<>> /\ s[Len(s)] = " " THEN StripSp(SubSeq(s, 1, Len(s) - 1)) ELSE s
 
 RECURSIVE SplitC(_, _)
 SplitC(s, acc) == IF s = <<>> THEN <<acc>>
@@ -82,9 +85,10 @@ PyInt(t) == LET u == Strip(t)
             IN IF DigitsUS(body) THEN [ok |-> TRUE, v |-> (IF sg /\ u[1] = "-" THEN -1 ELSE 1) * NatCap(d)]
                ELSE [ok |-> FALSE, v |-> 0]
 
+LowerOf(t) == [k \in 1..Len(t) |-> ToLower(t[k])]
 IsPrefix(a, u) == Len(a) <= Len(u) /\ SubSeq(u, 1, Len(a)) = a
 \* a confirmation pattern [ci, alts, whole] stands for the regex  (?i)? ^(alt|alt..) $?   (alts lower-case if ci)
-Match(pat, t) == LET u == IF pat.ci THEN [k \in 1..Len(t) |-> ToLower(t[k])] ELSE t
+Match(pat, t) == LET u == IF pat.ci THEN LowerOf(t) ELSE t
                  IN \E j \in 1..Len(pat.alts) : IF pat.whole THEN u = pat.alts[j] ELSE IsPrefix(pat.alts[j], u)
 
 Count(cs, e) == Cardinality({k \in 1..Len(cs) : cs[k] = e})
@@ -204,8 +208,8 @@ TypeOK == /\ pc \in {"ask", "head", "prompt", "read", "validate", "normalize", "
 \*   accept  - e is the text of exactly one choice (that choice), or e is the canonical decimal of an index in
 \*             range and not itself a choice (the choice at that index: value match has precedence)
 \*   reject  - canonical negative or out-of-range integer, or a text that is neither
-\*   free    - the statement is silent: e equals several choices (ambiguous), or e is another spelling of an
-\*             integer ("+1", "01", "1_0", "-0")
+\*   free    - the statement is silent: e equals several choices (ambiguous), e is another spelling of an
+\*             integer ("+1", "01", "1_0", "-0"), or e differs from a choice only in the case of letters
 IsCanonNat(t) == t # <<>> /\ (\A k \in 1..Len(t) : t[k] \in Digits) /\ (Len(t) > 1 => t[1] # "0")
 IsCanonNeg(t) == Len(t) >= 2 /\ t[1] = "-" /\ IsCanonNat(Tail(t)) /\ Tail(t) # <<"0">>
 IntLike(t) == (\E k \in 1..Len(t) : t[k] \in Digits)
@@ -222,12 +226,13 @@ PClass1(qq, e) ==
                 ELSE [c |-> "reject", s |-> <<>>, why |-> "out-of-range"])
      ELSE IF IsCanonNeg(e) THEN [c |-> "reject", s |-> <<>>, why |-> "negative"]
      ELSE IF IntLike(e) THEN [c |-> "free", s |-> <<>>, why |-> "int-like"]
+     ELSE IF \E k \in 1..Len(cs) : LowerOf(cs[k]) = LowerOf(e) THEN [c |-> "free", s |-> <<>>, why |-> "case"]
      ELSE [c |-> "reject", s |-> <<>>, why |-> "unknown"]
 
 MinOf(S) == CHOOSE k \in S : \A j \in S : k <= j
 
 \* an entry value (VStr or, for an empty line without default, VNone); multi-select: comma-separated, blanks
-\* around the items are insignificant, every item is classified on its own
+\* around the items are insignificant (tabs there: free), every item is classified on its own
 PClass(qq, ev) ==
   IF ev.t # "str" THEN [c |-> "free", v |-> VNone, why |-> "empty"]
   ELSE IF ~(qq.kind = "choice" /\ qq.multi)
@@ -236,6 +241,7 @@ PClass(qq, ev) ==
        ELSE LET ps0 == Parts(ev.s)
                 ps == [k \in 1..Len(ps0) |-> Strip(ps0[k])]
             IN IF Len(ps) > 1 /\ Count(qq.choices, ev.s) >= 1 THEN [c |-> "free", v |-> VNone, why |-> "comma-choice"]
+               ELSE IF \E k \in 1..Len(ps0) : StripSp(ps0[k]) # ps[k] THEN [c |-> "free", v |-> VNone, why |-> "tab-item"]
                ELSE IF \E k \in 1..Len(ps) : ps[k] = <<>> THEN [c |-> "free", v |-> VNone, why |-> "empty-item"]
                ELSE LET rs == [k \in 1..Len(ps) |-> PClass1(qq, ps[k])]
                         rej == {k \in 1..Len(ps) : rs[k].c = "reject"}
